@@ -170,6 +170,9 @@ type Gen struct {
 	PropChance int
 	// AnyTypes are type names to use in "!type" of any-values
 	AnyTypes []string
+	// Budget bounds the number of values generated for one document (0: 150)
+	Budget int
+	used   int
 }
 
 func NewGen(r *vh.Rand, env *Env) *Gen {
@@ -177,7 +180,13 @@ func NewGen(r *vh.Rand, env *Env) *Gen {
 }
 
 // Root generates a document for the root schema.
-func (g *Gen) Root() *J { return g.Container(g.Env.Lookup(g.Env.Root), 0) }
+func (g *Gen) Root() *J {
+	g.used = 0
+	if g.Budget == 0 {
+		g.Budget = 150
+	}
+	return g.Container(g.Env.Lookup(g.Env.Root), 0)
+}
 
 func (g *Gen) Container(s *Schema, depth int) *J {
 	switch s.Class {
@@ -204,14 +213,23 @@ func (g *Gen) Object(s *Schema, depth int) *J {
 	o.Schema = s
 	for _, p := range s.Props {
 		chance := g.PropChance
-		if depth >= g.MaxDepth && g.heavy(p.Ty) {
+		if (depth >= g.MaxDepth || g.used > g.Budget) && g.heavy(p.Ty) {
 			continue
+		}
+		if g.used > 2*g.Budget {
+			break
 		}
 		if g.Canonical && p.Ty.Class == "any" && p.Ty.PB {
 			continue // google.protobuf.Any needs the WithProtoToAny codec option
 		}
 		if depth > 0 {
 			chance = chance * 3 / 2
+			if n := len(s.Props); n > 12 {
+				chance = chance * 12 / n
+				if chance < 2 {
+					chance = 2
+				}
+			}
 		}
 		if !g.R.Chance(chance) {
 			continue
@@ -276,6 +294,7 @@ func (g *Gen) Oneof(s *Schema, depth int) *J {
 }
 
 func (g *Gen) Value(t *Ty, depth int) *J {
+	g.used++
 	var j *J
 	switch t.Class {
 	case "scalar":
